@@ -16,7 +16,8 @@ From God Require C18.Conc.
 Import C18.Conc.
 
 Module CA.
-  Record cop := mkcop { k_writer : bool; k_key : nat; k_val : nat; k_ga : nat; k_gb : nat; k_gc : nat }.
+  (* a call: reader (QueryRowCtx), writer (ExecCtx) or, with k_set, SetCacheCtx(key, row k_val) *)
+  Record cop := mkcop { k_writer : bool; k_key : nat; k_val : nat; k_ga : nat; k_gb : nat; k_gc : nat; k_set : bool }.
 
   Inductive pc :=
   | Idle
@@ -29,7 +30,8 @@ Module CA.
   | REnd (f : nat) (r : option nat)     (* fn returned: unregister the flight, wake waiters singleflight.go:72-77 *)
   | W0                                  (* ExecCtx: exec entered (gate ga)                  cachedsql.go:101 *)
   | W1                                  (* after the first step (gate gb) *)
-  | W2.                                 (* before the second step (gate gc) *)
+  | W2                                  (* before the second step (gate gc) *)
+  | SSet.                               (* SetCacheCtx: marshal the row, SETEX               cachedsql.go:211 *)
 
   Record tstate := mkt { t_pc : pc; t_op : cop; t_cancel : bool; t_todo : list cop; t_res : list (bool * option nat) }.
 
@@ -51,7 +53,7 @@ Module CA.
     trace : list cev               (* ghost: history, newest first *)
   }.
 
-  Definition nop : cop := mkcop false 0 0 0 0 0.
+  Definition nop : cop := mkcop false 0 0 0 0 0 false.
   Definition init (wf : bool) (scripts : nat -> list cop) : state :=
     mk wf (fun _ => 0) (fun _ => None) (fun _ => None) (fun _ => None) 0 []
        (fun t => mkt Idle nop false (scripts t) []) 0 false [].
@@ -93,7 +95,7 @@ Module CA.
         | Idle =>
             match t_todo x with
             | [] => None
-            | o :: rest => go (mkt (if k_writer o then W0 else RStart) o (t_cancel x) rest (t_res x))
+            | o :: rest => go (mkt (if k_set o then SSet else if k_writer o then W0 else RStart) o (t_cancel x) rest (t_res x))
             end
         | RStart =>
             match flights s k with
@@ -131,6 +133,11 @@ Module CA.
         | REnd f r =>
             Some (mk (wfirst s) (db s) (cache s) (upd (flights s) k None) (upd (fres s) f (Some r)) (next s) (open s)
                      (upd (ts s) t (finish x true r)) (dbq s) (raced s) (trace s))
+        | SSet =>
+            (* the caller's row is stored; it is a racing store unless it is the current row *)
+            Some (mk (wfirst s) (db s) (upd (cache s) k (Some (k_val (t_op x)))) (flights s) (fres s) (next s) (open s)
+                     (upd (ts s) t (finish x true (Some 0))) (dbq s) (raced s || negb (Nat.eqb (k_val (t_op x)) (db s k)))
+                     (ESet t k (k_val (t_op x)) :: trace s))
         | W0 =>
             if wfirst s then
               if gate_open (open s) (k_ga (t_op x)) then do_write (setpc x W1) else None
